@@ -40,6 +40,13 @@ def mock(rec, el=None):
     return A()
 
 
+def replay_any(rec, ctx):
+    if rec.get("part") == "session":
+        from . import c09_session
+        return c09_session.replay(rec, ctx)
+    return replay(rec, ctx)
+
+
 def replay(rec, ctx):
     import numpy as np
     from raysect.core.math.function.float import Constant1D, Constant2D
@@ -179,6 +186,8 @@ def run(v):
                 v.violation(x["sig"], x["detail"], r)
         v.add_cases(len(cases), keys=[json.dumps(r, sort_keys=True) for r in cases])
         v.sample(cases[len(cases) // 2])
+    from . import c09_session
+    c09_session.run_part(v)
     v.assumptions += ["constant integer rates times 1e-14 m^3/s at n_e = 3e19 m^-3 (physical magnitudes: with O(1) rates the lsq_linear system is hopelessly scaled; observed, not asserted)",
                       "tolerance 1e-7 on fractions (scipy lsq_linear)", "equilibrium-mapped entry points are thin wrappers over the interpolator front-ends and are exercised in thorough only"]
     return v.finish(rule="one case = one IonBalance.tla instance (element, rate pattern, donor ratio, donor charge) run through every entry point and input representation; distinct = distinct instances")
@@ -188,6 +197,7 @@ def selftest():
     rec = {"Z": 2, "S": [1, 2], "alpha": [1, 1], "cx": [1, 1], "donor": [0, 1], "dq": 0, "w": [1, 1, 2], "total": 4, "zw": 5}
     good = replay(rec, None)
     bad = replay(dict(rec, w=[2, 1, 1]), None)
-    ok = not good and bool(bad)
+    from . import c09_session
+    ok = not good and bool(bad) and c09_session.selftest()
     print("C09 selftest:", "ok" if ok else "FAILED", good[:1], bad[:1])
     return 0 if ok else 2
